@@ -541,7 +541,7 @@ def run_check(ctx):
     if not any(os.path.exists(t) and os.path.getsize(t) > 0 for t in tfiles):
         raise MachineryError("the H-idb hooks recorded nothing: is patches/c13-hooks.diff applied to the tree under test?")
     # a fixed stratified part of the batches (the replay comparison above is complete)
-    tfiles = tfiles[::5] if ctx.tier == "quick" else tfiles[::4]
+    tfiles = tfiles[::5] if ctx.tier == "quick" else tfiles[::max(4, len(tfiles) // 64)]
     ng = NCPU // 2 if ctx.tier == "quick" else NCPU
     groups = []
     nev = 0
